@@ -160,7 +160,7 @@ def _run0(ck, fb):
         ck.require(len(dv) == 1 and len(le) >= 2, 'R12c', 'default_instance_filter:threshold', df.where(), 'the protection threshold test (healthy/total <= threshold) is gone')
     ck.rule('R12d', 'a new registration keeps what it was registered with: on the not-found branch of Service::update_instance none of '
                     'ip, port, ephemeral, enabled, weight of the incoming instance is assigned; NamingActor::update_instance only resets '
-                    'from_cluster/client_id under at_process_range && !from_grpc')
+                    'from_cluster/client_id under at_process_range && !from_grpc (from_cluster also where it equals this node\'s own id)')
     up = ck.body(SV + 'update_instance', 'R12d')
     if up:
         bad = []
@@ -178,6 +178,17 @@ def _run0(ck, fb):
         for (o, f, bb, st) in nu.field_writes():
             if o.endswith('naming::model::Instance') and f in ('from_cluster', 'client_id'):
                 ok = cond_on(nu, bb, field_cond('from_grpc', False))
+                if not ok and f == 'from_cluster':
+                    # ... or it is the node's own id that is taken off a copy of an instance the node holds itself (R15l): the holder does not change
+                    for a in cfg.guard_atoms(nu, bb):
+                        if a[0] == 'cmp' and a[1] == 'Eq' and a[4] is True:
+                            fs = set()
+                            for d in (a[2], a[3]):
+                                d = cfg.strip_calls(nu, d) if d['k'] == 'call' else d
+                                if d['k'] == 'place':
+                                    fs.add(d['fields'][-1])
+                            if {'from_cluster', 'node_id'} <= fs:
+                                ok = True
                 ck.require(ok, 'R12d', 'NamingActor::update_instance:%s-reset-guard' % f, nu.where(bb), 'instance.%s is reset outside (at_process_range && !from_grpc)' % f)
             elif o.endswith('naming::model::Instance') and f in ('ip', 'port', 'ephemeral', 'enabled', 'weight'):
                 ck.bad('R12d', 'NamingActor::update_instance:assigns-%s' % f, nu.where(bb), 'NamingActor::update_instance overwrites instance.%s' % f)
